@@ -94,6 +94,8 @@ class LogModel(Model):
     def end_round(self, time, sim_round, step):
         self.log.append(("end", time, sim_round, step))
         self._ops("end")
+        # the population as the model itself sees it when the step's statistics are due
+        self.log.append(("population", time, [(a.id, a.agent_type, a.state, copy.deepcopy(a.properties)) for a in self.agents]))
 
 
 def new_model(start, stop, dt, name="abm", script=None, agents=None):
